@@ -119,7 +119,8 @@ func (sf *storeFlusher) Commit() (err error) {
 		}
 	}()
 	if builder != nil {
-		if builder.Size() > 0 {
+		// NOTE: need check the count of keys, Size() is the bytes of values, it is 0 if all values are empty.
+		if builder.Count() > 0 {
 			err = builder.Close()
 			if err != nil {
 				return fmt.Errorf("close table builder error when flush commit, error:%s", err)
